@@ -225,9 +225,9 @@ def correspondence(ctx, model_ok=True):
 
     # (c) in-language routes
     progs = []
-    n_c = 200 if ctx.thorough else 40
+    n_c = 600 if ctx.thorough else 120
     for i in range(n_c):
-        progs.append(route_program(rng.fork("c%d" % i)))
+        progs.append(route_program(rng.fork("c%d" % i)) if i % 3 else route_program_values(rng.fork("v%d" % i)))
     c_lines = [vlib.case_line("c%d" % i, ["S:" + vlib.hx(p)], steps=2000000) for i, p in enumerate(progs)]
     for mode in (["default", "always"] if ctx.thorough else ["default"]):
         rl = [l.replace(" steps=", " gc=%s steps=" % mode) for l in c_lines]
@@ -282,11 +282,15 @@ def route_program(rng):
         "String.from_code_points([%s])" % cps,
         "host_id(%s)" % yl_str(t),
         "String.from(%s)" % yl_str(t),
+        '"${%s}"' % yl_str(t),
+        '"${sv}"',
+        '"${sv}" + ""',
     ]
     # filler strings force table growth between creations
     filler = rng.below(300)
     src = []
     src.append("fn joined(s) { var r = \"\"; for c in s { r = r + c; } return r; }")
+    src.append("var sv = %s;" % yl_str(t))
     src.append("var vs = [];")
     for e in exprs:
         src.append("vs.push(%s);" % e)
@@ -297,6 +301,36 @@ def route_program(rng):
     src.append("for x in vs { for y in vs { if !(x == y) { bad = \"neq\"; } } "
                "if m.get(x) != 1 { bad = \"get\"; } if !m.has_key(x) { bad = \"has\"; } "
                "m.insert(x, 1); if x == %s { bad = \"eq-other\"; } if m.has_key(%s) { bad = \"other-key\"; } }" % (yl_str(other), yl_str(other)))
+    src.append("if m.len() != 1 { bad = \"len\"; }")
+    src.append("if bad == nil { print(\"ok\"); } else { print(bad); }")
+    return "\n".join(src)
+
+
+def route_program_values(rng):
+    """The text of a NON-string value (number, boolean, nil) made by every route that converts it: all must be one string."""
+    k = rng.below(6)
+    if k < 3:
+        n = [rng.below(1000), -rng.below(1000) - 1, rng.below(10 ** 9) * 1000][k]
+        text, val, val2 = str(n), "(%d)" % n, "(%d + 1 - 1)" % n
+    elif k == 3:
+        n = rng.below(1000)
+        text, val, val2 = "%d.5" % n, "%d.5" % n, "(%d + 0.5)" % n
+    elif k == 4:
+        b = rng.chance(1, 2)
+        text, val, val2 = ("true" if b else "false"), ("true" if b else "false"), ("(1 == 1)" if b else "(1 == 2)")
+    else:
+        text, val, val2 = "nil", "nil", "nil"
+    exprs = [yl_str(text), "String.from(%s)" % val, '"${%s}"' % val, '"${nv}"', '"${%s}"' % val2, "String.from(nv)", '"" + "${nv}"', '"${nv}" + ""',
+             "%s + %s" % (yl_str(text[:1]), yl_str(text[1:])), '"${"${nv}"}"']
+    src = ["var nv = %s;" % val, "var vs = [];"]
+    filler = rng.below(200)
+    for e in exprs:
+        src.append("vs.push(%s);" % e)
+        if filler:
+            src.append("{ var i = 0; while i < %d { var f = \"g${i}_%d\"; i = i + 1; } }" % (filler, rng.below(1000)))
+    src.append("var bad = nil;")
+    src.append("var m = {%s: 1};" % yl_str(text))
+    src.append("for x in vs { for y in vs { if !(x == y) { bad = \"neq\"; } } if m.get(x) != 1 { bad = \"get\"; } if !m.has_key(x) { bad = \"has\"; } m.insert(x, 1); }")
     src.append("if m.len() != 1 { bad = \"len\"; }")
     src.append("if bad == nil { print(\"ok\"); } else { print(bad); }")
     return "\n".join(src)
